@@ -6,8 +6,10 @@ FitResult / the caller's circuit are inspected.
 
 Clauses (one mechanism-key family each):
   recovery     (only items with recover=True: identifiable family, noise-free data, class-default limits, default
-               method="auto", weight="auto"): pseudo_chisqr <= CHI_TOL and every generating value reproduced within
-               PAR_TOL (relative), modulo the order of interchangeable parallel blocks of identical shape.
+               method="auto", weight="auto"): per fit pseudo_chisqr <= CHI_TOL, and when pseudo_chisqr <= CONV_CHI every
+               generating value is reproduced within PAR_TOL (relative), modulo the order of interchangeable parallel
+               blocks of identical shape; per run the median chi-squared / parameter error are <= MED_CHI_TOL /
+               MED_PAR_TOL and >= MIN_CONVERGED of the fits meet the design's 1e-8 / 1e-3 (see the tolerance block).
   bounds       every value of result.circuit lies within [lower, upper] of the same parameter of the circuit that was
                passed in (exact comparison).
   fixed        parameters marked fixed in the circuit passed in are bit-identical in result.circuit.
@@ -62,10 +64,16 @@ CASE_TIMEOUT = 900
 MIN_EVALS = 100
 
 # frozen tolerances (calibration: see report / evidence worst_observed)
-CHI_TOL = 1e-3        # per fit; worst observed 3.4e-5 (the library minimises sum((w*e^2)^2): convergence of a quartic loss has a soft tail)
-PAR_TOL = 0.3         # per fit, relative; worst observed 3.0e-2
-MED_CHI_TOL = 1e-9    # median over all recovery fits of a run; observed 1e-13..2e-12
-MED_PAR_TOL = 1e-4    # median over all recovery fits of a run; observed ~1e-6
+# Recovery is decided on three levels because the library minimises sum((w*e^2)^2) - a quartic loss whose convergence has a
+# soft tail: on the unchanged tree ~5% of the auto fits stop at chi^2 1e-8..1e-4 (worst seen 9.0e-5 with one CPE parameter
+# 13.6% off) although the median is 1e-13.  A per-fit tolerance 100x above that tail cannot also be "vanishing", so:
+CHI_TOL = 1e-2        # every fit: pseudo chi-squared (worst observed 9.0e-5; the 'pick the worst candidate' mutant gives 3e-2..1e16)
+CONV_CHI = 1e-8       # a fit that reached this chi-squared (the design's tolerance) ...
+PAR_TOL = 0.2         # ... must reproduce every generating value within this (worst observed among 1444 such fits 2.1e-3)
+DESIGN_PAR = 1e-3     # the design's per-fit parameter tolerance, used in the quantile criterion
+MIN_CONVERGED = 0.7   # run level: fraction of recovery fits with chi^2 <= CONV_CHI and error <= DESIGN_PAR (observed 0.90..0.97)
+MED_CHI_TOL = 1e-9    # run level: median chi^2 over all recovery fits (observed 1e-14..2e-12)
+MED_PAR_TOL = 1e-4    # run level: median relative parameter error (observed 3e-7..1e-6)
 FAM_MED_CHI_TOL = 1e-8  # per family median when >= 20 fits of that family were checked
 CONSTR_TOL = 1e-9
 
@@ -183,6 +191,16 @@ def _box(rng, sym, name, t, default_fixed):
     return s, None, None, "unbounded"
 
 
+def _source_kinds(sym, name):
+    """Box kinds allowed for the argument of a constraint expression (positive factor <= 25 / non-negative offset)."""
+    from pyimpspec import get_elements
+
+    cls = get_elements(private=True)[sym]
+    if cls.get_default_lower_limit(name) == 0.0 and cls.get_default_upper_limit(name) == fm.INF:
+        return ("tight", "excl", "default", "lower-only", "upper-only")  # any non-negative box maps into [0, inf)
+    return ("tight", "excl")  # finite positive box: 25x the box stays far inside the default limits (asserted in gen_inv_item)
+
+
 _CONSTR_KINDS = ["ratio-var", "equal", "offset-var", "ratio-const", "sqrt-chain", "ratio-var-suffix"]
 
 
@@ -216,14 +234,21 @@ def _constraints(rng, start_leaves):
         return kind, {dst: src}, {}, (b, name), (a, name)
     if kind == "offset-var":
         v0 = float(start_leaves[a][2][name][0])
-        return kind, {dst: f"{src} + delta"}, {"delta": {"value": abs(v0) * k, "min": 0.0, "max": abs(v0) * 20 + 1.0}}, (b, name), (a, name)
+        return kind, {dst: f"{src} + delta"}, {"delta": {"value": abs(v0) * k, "min": 0.0, "max": abs(v0) * 20}}, (b, name), (a, name)
     if kind == "ratio-const":
         return kind, {dst: f"{k!r} * {src}"}, {}, (b, name), (a, name)
     return kind, {dst: f"sqrt({src} * {src}) * beta", }, {"beta": {"value": k, "vary": False}}, (b, name), (a, name)
 
 
 def gen_inv_item(rng, cell_index):
-    """One concrete invariant item (JSON-able)."""
+    """One concrete invariant item (JSON-able).  Precondition: the generating circuit has a finite spectrum."""
+    while True:
+        item = _gen_inv_item(rng, cell_index)
+        if item is not None:
+            return item
+
+
+def _gen_inv_item(rng, cell_index):
     shapes = [s for s, _ in SHAPES]
     w = np.array([x for _, x in SHAPES], dtype=float)
     shp = str(rng.choice(shapes, p=w / w.sum()))
@@ -241,6 +266,8 @@ def gen_inv_item(rng, cell_index):
                              "Z_A": None, "Z_B": None, "Zeta": ["S", fm.E("Q", Y=fm._logu(rng, 1e-4, 1e-2), n=float(rng.uniform(0.7, 0.98)))]})
         lo = float(rng.uniform(-2, 0))
         f_lo, f_hi, ppd = 10.0**lo, 10.0 ** (lo + float(rng.uniform(5, 7))), int(rng.choice([5, 8, 10]))
+        if shp == "RTlm":
+            f_hi = min(f_hi, 1e4)
     tl = fm.leaves(truth)
     start = copy.deepcopy(truth)
     sl = fm.leaves(start)
@@ -263,8 +290,9 @@ def gen_inv_item(rng, cell_index):
                 kinds.append("constrained")
                 continue
             s, lo, hi, kind = _box(rng, leaf[1], name, t, default_fixed)
-            while source == (i, name) and kind in ("below-default", "above-default", "unbounded"):
-                # precondition: the expression must stay inside the (class-default) limits of the constrained parameter
+            while source == (i, name) and kind not in _source_kinds(leaf[1], name):
+                # precondition: the range of the expression over the box of its argument must lie inside the (class-
+                # default) limits of the constrained parameter, otherwise lmfit clips the expression value
                 s, lo, hi, kind = _box(rng, leaf[1], name, t, default_fixed)
             fixed = bool(default_fixed or rng.random() < 0.3)
             if default_fixed and rng.random() < 0.3:  # free the exponent of a Warburg element inside a tight box
@@ -272,6 +300,17 @@ def gen_inv_item(rng, cell_index):
             p[:] = [s, lo, hi, fixed]
             kinds.append(kind)
             n_free += not fixed
+    if constr:
+        from pyimpspec import get_elements
+
+        (ai, an), (bi, bn) = source, constrained
+        cls = get_elements(private=True)[sl[bi][1]]
+        dlo, dhi = cls.get_default_lower_limit(bn), cls.get_default_upper_limit(bn)
+        _, slo, shi, _ = sl[ai][2][an]
+        if not (dlo == 0.0 and dhi == fm.INF):
+            # expression <= 25 * argument (ratio kinds) or <= 21 * argument (offset kind); keep a further factor 10 in hand
+            if not (isinstance(slo, float) and isinstance(shi, float) and slo > 0 and dlo < slo / 250 and shi * 250 < dhi):
+                constr = None  # precondition not met by the boxes drawn: this item carries no constraint
     if n_free == 0:  # free the first non-container parameter
         for leaf in sl:
             if leaf[1] != "Tlm":
@@ -285,7 +324,14 @@ def gen_inv_item(rng, cell_index):
                 leaf[3] = pool.pop()
                 labels.append(leaf[3])
     noise = float(rng.choice([0.0, 1e-3, 1e-2]))
-    f, Z = fm.spectrum(truth, f_lo, f_hi, ppd, noise, rng)
+    try:
+        with warnings.catch_warnings():
+            warnings.simplefilter("ignore")
+            f, Z = fm.spectrum(truth, f_lo, f_hi, ppd, noise, rng)
+    except Exception:  # e.g. cosh overflow of the transmission line at the top of the window: not a usable spectrum
+        return None
+    if not (np.all(np.isfinite(Z.real)) and np.all(np.isfinite(Z.imag)) and np.all(abs(Z) > 0)):
+        return None
     n_el = len(sl)
     method, weight = CELLS[cell_index % 36]
     r = rng.random()
@@ -517,7 +563,7 @@ def check_fit(item):
         worst("recovery_param_rel_err:" + item["shape"], best)
         if not chi <= CHI_TOL:
             bad(f"C12/recovery-chisqr:{item['shape']}", f"pseudo chi-squared {chi:.3g} > {CHI_TOL:g} (winner {result.method}/{result.weight}, worst parameter error {best:.3g})")
-        if not best <= PAR_TOL:
+        if chi <= CONV_CHI and not best <= PAR_TOL:
             tv = [float(p[0]) for leaf in fm.leaves(item["truth"]) for p in leaf[2].values()]
             bad(f"C12/recovery-params:{item['shape']}", f"generating values {tv} returned as {fitted} (rel. error {best:.3g}, chi-squared {chi:.3g}, winner {result.method}/{result.weight})")
     fixed_mask = tuple(bool(x) for s in in_state for x in s[4].values())
@@ -620,7 +666,11 @@ def finalize(agg):
         med_chi, med_err = chis[len(chis) // 2], errs[len(errs) // 2]
         info["recovery"] = {"n": len(rec), "median_chisqr": med_chi, "median_param_rel_err": med_err, "max_chisqr": chis[-1], "max_param_rel_err": errs[-1],
                             "fraction_chisqr_below_1e-8": round(sum(c <= 1e-8 for c in chis) / len(chis), 3)}
+        conv = sum(1 for _, c, e in rec if c <= CONV_CHI and e <= DESIGN_PAR) / len(rec)
+        info["recovery"]["fraction_converged_to_design_tolerance"] = round(conv, 3)
         if len(rec) >= 12:
+            if not conv >= MIN_CONVERGED:
+                viol.append({"key": "C12/recovery-converged-fraction", "msg": f"only {conv:.2f} of {len(rec)} recovery fits reached chi-squared <= {CONV_CHI:g} with parameters within {DESIGN_PAR:g} (required {MIN_CONVERGED})", "witness": {"sorted_chisqr": chis[-50:]}})
             if not med_chi <= MED_CHI_TOL:
                 viol.append({"key": "C12/recovery-median-chisqr", "msg": f"median pseudo chi-squared over {len(rec)} recovery fits is {med_chi:.3g} > {MED_CHI_TOL:g}", "witness": {"sorted_chisqr": chis[:50]}})
             if not med_err <= MED_PAR_TOL:
@@ -635,5 +685,5 @@ def finalize(agg):
                 viol.append({"key": f"C12/recovery-median-chisqr:{k}", "msg": f"median pseudo chi-squared over {len(v)} recovery fits of {k} is {m:.3g} > {FAM_MED_CHI_TOL:g}", "witness": {"family": k}})
     info["returned_per_cell_min"] = min(returned.values()) if returned else 0
     info["refused_fraction"] = round(st.get("refused", 0) / max(1, st.get("fits_requested", 1)), 4)
-    info["tolerances"] = {"CHI_TOL": CHI_TOL, "PAR_TOL": PAR_TOL, "MED_CHI_TOL": MED_CHI_TOL, "MED_PAR_TOL": MED_PAR_TOL, "FAM_MED_CHI_TOL": FAM_MED_CHI_TOL, "CONSTR_TOL": CONSTR_TOL}
+    info["tolerances"] = {"CHI_TOL": CHI_TOL, "CONV_CHI": CONV_CHI, "PAR_TOL": PAR_TOL, "MIN_CONVERGED": MIN_CONVERGED, "MED_CHI_TOL": MED_CHI_TOL, "MED_PAR_TOL": MED_PAR_TOL, "FAM_MED_CHI_TOL": FAM_MED_CHI_TOL, "CONSTR_TOL": CONSTR_TOL}
     return {"viol": viol, "inconclusive": inc, "info": info}
